@@ -241,7 +241,9 @@ func checkC07(r *Result) {
 		for _, cs := range P.CallSitesIn(dr) {
 			switch cs.Callee {
 			case "(x/oracle/keeper.Keeper).SetValue":
-				bad := ps.Require(cs.Instr, func(v map[string]bool) bool { return !(v["noTip"] && !v["inCycle"]) && !v["windowClosed"] && !v["deposit"] })
+				bad := ps.Require(cs.Instr, func(v map[string]bool) bool {
+					return !(v["noTip"] && !v["inCycle"]) && !v["windowClosed"] && !v["deposit"]
+				})
 				evaluated := len(ps.Matched["noTip"]) > 0 && len(ps.Matched["windowClosed"]) > 0 && len(ps.Matched["inCycle"]) > 0
 				r.check(len(bad) == 0 && evaluated, "ADMIT", "(x/oracle/keeper.Keeper).DirectReveal # SetValue only for a tipped or cycle-list query whose window is open", P.Pos(cs.Pos()), fmt.Sprintf("valuations: %v", statesStr(ps, cs.Instr)))
 				// the cycle-list flag of the report is the query's
